@@ -722,6 +722,12 @@ func (db *DB) rollbackJournalSegment(ctx context.Context, r *JournalReader, dbFi
 			return fmt.Errorf("read frame(%d): %w", i, err)
 		}
 
+		// Skip pages beyond the size of the database before the transaction.
+		// They are removed when the database is resized after the rollback.
+		if pgno > r.commit {
+			continue
+		}
+
 		// Write data to the database file.
 		if err := db.writeDatabasePage(dbFile, pgno, data, true); err != nil {
 			return fmt.Errorf("write to database (pgno=%d): %w", pgno, err)
@@ -3854,6 +3860,11 @@ func (r *JournalReader) ReadFrame() (pgno uint32, data []byte, err error) {
 	pgno = binary.BigEndian.Uint32(r.frame[0:])
 	data = r.frame[4 : len(r.frame)-4]
 	chksum := binary.BigEndian.Uint32(r.frame[len(r.frame)-4:])
+
+	// A record for page zero or for the lock page ends the journal.
+	if pgno == 0 || pgno == ltx.LockPgno(r.pageSize) {
+		return 0, nil, io.EOF
+	}
 
 	if chksum != JournalChecksum(data, r.nonce) {
 		return 0, nil, io.EOF
